@@ -431,6 +431,8 @@ func (e *Env) applyCli(op *Op) []string {
 					if d, err := e.f.GetDescriptor(sif.WithID(uint32(id))); err == nil {
 						if b, err := d.GetData(); err == nil && !bytes.Equal(b, so.Bytes()) {
 							viol("C15:dump-differs", fmt.Sprintf("dump printed %d bytes, the object holds %d other bytes", so.Len(), len(b)))
+						} else if err != nil {
+							viol("C15:differs-from-library", fmt.Sprintf("dump exited 0 after printing %d bytes, reading the object through the library fails (%v)", so.Len(), err))
 						}
 					}
 				}
